@@ -103,7 +103,7 @@ CHECKS = {
          "DESIGN.md 6/C14"),
  "C19": ("exploration",
          "deterministic simulation: seeded baton-passing scheduler over the lock map's internal steps, cancellation events as faults, invariants at every step",
-         "Seeded search over interleavings of 2-4 tasks x 1-3 rounds x 1-2 keys with context cancellations on the real TransientLockMap; mutual exclusion, cancel safety, progress (deadlock/livelock verdicts), bad-unlock panic and emptiness at quiescence are checked in every run. Sampling, not the exhaustive enumeration the quantifier asks for; the number of distinct interleavings is reported. A supplement (runtime monitoring on real goroutines, reported separately) covers windows without a scheduling point and a wait of several seconds of real time; a hang that reproduces from the seed in a fresh process is a violation.",,
+         "Seeded search over interleavings of 2-4 tasks x 1-3 rounds x 1-2 keys with context cancellations on the real TransientLockMap; mutual exclusion, cancel safety, progress (deadlock/livelock verdicts), bad-unlock panic and emptiness at quiescence are checked in every run. Sampling, not the exhaustive enumeration the quantifier asks for; the number of distinct interleavings is reported. A supplement (runtime monitoring on real goroutines, reported separately) covers windows without a scheduling point and a wait of several seconds of real time; a hang that reproduces from the seed in a fresh process is a violation.",
          "Trusted: the scheduler hooks (yields between the internal steps; wait-until in front of the channel send). The Go runtime's choice between two ready select cases is not explored.",
          "DESIGN.md 6/C19"),
 }
